@@ -96,7 +96,7 @@ Qed.
 
 (* EVERY compiled program (any Delegate instructions): no panic site is ever reached, and every
    reported capture slot is unset or a character boundary inside the text.  The only hypothesis on
-   the pattern is [oke true]: parser invariants, backreferences to earlier groups, lo <= hi, no
+   the pattern is [oke true]: parser invariants, backreferences to earlier groups, no
    conditional under an atomic cut. *)
 Theorem C05_vm_never_panics_any_program :
   forall cs : list (list nat), valid_chars cs ->
